@@ -62,11 +62,33 @@ def _cases(draw):
     t = draw(_tree(4, poly))
     if t[0] in ("int", "float"):
         t = ["mul", ["var", draw(st.sampled_from(VARS))], t]
-    return {"mode": "poly" if poly else "rational", "tree": t, "final_div": draw(st.booleans()) and poly}
+    # "tiny": every numeric constant of the tree is scaled by 2**-42 (still exact binary floats, and sums only ever combine
+    # coefficients of similar magnitude, so arithmetic stays exact): non-zero coefficients of size ~1e-13 .. 1e-26 must survive
+    return {"mode": "poly" if poly else "rational", "tree": t, "final_div": draw(st.booleans()) and poly,
+            "tiny": False}
 
 
 def cases(tier):
     return _cases()
+
+
+def enumerate_cases(tier):
+    """Fixed trees with coefficients of magnitude 2**-42 .. 2**-84 (exact binary floats; every sum combines coefficients of equal
+    magnitude, so float arithmetic is exact): a non-zero coefficient must survive however small it is."""
+    t, u = 2.0 ** -42, -(2.0 ** -43)
+    X, Y, Z = ["var", "a"], ["var", "b1"], ["var", "a12"]
+    tx, ty, ux = ["mul", ["float", t], X], ["mul", ["float", t], Y], ["mul", ["float", u], X]
+    trees = [
+        ["add", tx, tx], ["add", tx, ty], ["add", tx, ux], ["sub", tx, ["mul", ["float", t], X]],
+        ["pow", ["add", tx, ty], 2], ["mul", ["add", tx, ty], ["add", tx, ty]], ["mul", ["add", tx, ty], ["sub", tx, ty]],
+        ["aug", tx, tx, "+="], ["aug", tx, ty, "+="], ["aug", ["add", tx, ty], tx, "-="],
+        ["add", ["mul", tx, Y], ["mul", ty, X]], ["sub", ["mul", tx, Y], ["mul", ty, X]],
+        ["mul", ["add", tx, ["mul", ["float", t], Z]], Y], ["neg", ["add", ux, ux]],
+        ["pow", tx, 2], ["pow", ["add", tx, tx], 2], ["zero", tx, "kx-xk"], ["zero", ["add", tx, ty], "x-x"],
+    ]
+    for mode in ("rational", "poly"):
+        for tr in trees:
+            yield {"mode": mode, "tree": tr, "final_div": False, "tiny": False}
 
 
 # ---------------------------------------------------------------------------------------------------------------------
@@ -79,7 +101,10 @@ class Discard(Exception):
     pass
 
 
-def _eval(tree, mode, nodes):
+TINY = 2.0 ** -42
+
+
+def _eval(tree, mode, nodes, tiny=False):
     """Evaluate the tree in kingdon and in the reference ring.  Appends (tree, kingdon value, Q value, exact) per node."""
     Polynomial, RationalPolynomial = _kclasses()
     cls = Polynomial if mode == "poly" else RationalPolynomial
@@ -87,16 +112,17 @@ def _eval(tree, mode, nodes):
     if k == "var":
         res = (cls.fromname(tree[1]), Q.var(tree[1]), True)
     elif k in ("int", "float"):
-        res = (tree[1], Q.lift(tree[1]), True)
+        c = tree[1] * TINY if tiny else tree[1]
+        res = (c, Q.lift(c), True)
     elif k == "lin":
-        kv = tree[2]
-        qv = Q.lift(tree[2])
+        kv = tree[2] * TINY if tiny else tree[2]
+        qv = Q.lift(kv)
         for v in tree[1]:
             kv = cls.fromname(v) + kv
             qv = Q.var(v) + qv
         res = (kv, qv, True)
     else:
-        subs = [_eval(c, mode, nodes) for c in tree[1:] if isinstance(c, list)]
+        subs = [_eval(c, mode, nodes, tiny) for c in tree[1:] if isinstance(c, list)]
         exact = all(s[2] for s in subs)
         snap = [copy.deepcopy(s[0]) for s in subs]
 
@@ -281,7 +307,7 @@ def evaluate(case):
     Polynomial, RationalPolynomial = _kclasses()
     nodes = []
     try:
-        root = _eval(case["tree"], case["mode"], nodes)
+        root = _eval(case["tree"], case["mode"], nodes, bool(case.get("tiny")))
         if case.get("final_div") and isinstance(root[0], Polynomial):
             # Polynomial / Polynomial -> RationalPolynomial
             den = Polynomial.fromname("c") + 1
@@ -356,7 +382,7 @@ def evaluate(case):
                 raise Violation("equality-sound", "eq", f"== raised {type(e).__name__}: {e}", exc=type(e).__name__)
             if eq and not (q1 == q2):
                 raise Violation("equality-sound", "eq", f"{_show(k1)} == {_show(k2)} is True but they denote different functions {q1!r} / {q2!r}")
-    labels = [f"mode:{case['mode']}"]
+    labels = [f"mode:{case['mode']}"] + (["tiny-coefficients"] if case.get("tiny") else [])
     if has_zero:
         labels.append("has-zero-node")
     if has_den:
